@@ -56,11 +56,15 @@ def models_for(text, lines_abs):
     def m_map(i, p, fr, c, a, d, r): return ret(p, fr, d, r, opt(None))
     def m_tostring(i, p, fr, c, a, d, r): return ret(p, fr, d, r, Str(['<text>']))
     def m_println(i, p, fr, c, a, d, r): return ret(p, fr, d, r, Opaque('unit'))
+    def m_len_utf8(i, p, fr, c, a, d, r): return ret(p, fr, d, r, z3.If(z3.ULT(a[0], 0x80), z3.BitVecVal(1, 64), z3.If(z3.ULT(a[0], 0x800), z3.BitVecVal(2, 64), z3.If(z3.ULT(a[0], 0x10000), z3.BitVecVal(3, 64), z3.BitVecVal(4, 64)))))
     M = dict(LIB)
-    M.update({r'impl str>::chars$': m_chars, r'<Chars<.*> as IntoIterator>::into_iter$': m_into_iter, r'<Chars<.*> as Iterator>::next$': m_next,
+    M.update({r'impl char>::len_utf8$': m_len_utf8, r'impl str>::chars$': m_chars, r'<Chars<.*> as IntoIterator>::into_iter$': m_into_iter, r'<Chars<.*> as Iterator>::next$': m_next,
               r'<Vec<\(Rc<.*> as Index<usize>>::index$': m_index, r'Option::<\(Rc<.*>::as_ref$': m_as_ref, r'Option::<&\(Rc<.*>::map::': m_map,
               r'as ToString>::to_string$': m_tostring, r'std::io::_print$': m_println})
     return M
+
+
+EACUTE = 0xE9
 
 
 def check_offsets(rep, mir, tier, st):
@@ -71,8 +75,11 @@ def check_offsets(rep, mir, tier, st):
         for n in range(0, L + 1):
             ctx = Ctx(mir)
             chars = [z3.BitVec('c%d' % k, 32) for k in range(n)]
-            for ch in chars: ctx.constraints.append(z3.Or(ch == NL, ch == ord('x')))
-            loc = z3.BitVec('loc', 64); ctx.constraints.append(z3.ULE(loc, n))
+            for ch in chars: ctx.constraints.append(z3.Or(ch == NL, ch == ord('x'), ch == EACUTE))
+            # offsets are BYTE offsets (pest spans) at character boundaries; e-acute takes two bytes
+            blen = [z3.If(ch == EACUTE, z3.BitVecVal(2, 64), z3.BitVecVal(1, 64)) for ch in chars]
+            pos = [sum(blen[:k], z3.BitVecVal(0, 64)) for k in range(n + 1)]
+            loc = z3.BitVec('loc', 64); ctx.constraints.append(z3.Or(*[loc == pk for pk in pos]))
             nl_total = sum((z3.If(ch == NL, z3.BitVecVal(1, 64), z3.BitVecVal(0, 64)) for ch in chars), z3.BitVecVal(0, 64))
             # the line table has one entry per output line
             nlines = z3.BitVec('nlines', 64)
@@ -95,9 +102,9 @@ def check_offsets(rep, mir, tier, st):
                 kind, p = r[0], r[1]
                 if kind == 'boundhit': rep.inconc('%s: unrolling bound hit' % fname); continue
                 # the offending token sits at a real character of the text: loc < n
-                pre = p.pc + [z3.ULT(loc, n)] if n > 0 else None
+                pre = p.pc + [z3.ULT(loc, pos[n])] if n > 0 else None
                 if pre is None: continue
-                before = lambda: sum((z3.If(z3.And(z3.ULT(z3.BitVecVal(k, 64), loc), chars[k] == NL), z3.BitVecVal(1, 64), z3.BitVecVal(0, 64)) for k in range(n)), z3.BitVecVal(0, 64))
+                before = lambda: sum((z3.If(z3.And(z3.ULT(pos[k], loc), chars[k] == NL), z3.BitVecVal(1, 64), z3.BitVecVal(0, 64)) for k in range(n)), z3.BitVecVal(0, 64))
                 st['obligations'] += 1; st['queries'] += 1
                 if kind == 'panic':
                     bad = pre
@@ -108,18 +115,18 @@ def check_offsets(rep, mir, tier, st):
                     bad = pre + [z3.Or(*[ix != before() for ix in idxs])]
                 if sol.check(*bad) == z3.unsat: st['discharged'] += 1; continue
                 # prefer a counterexample with a real token offset (>= 1), then one at column one
-                for extra in ([z3.UGT(loc, 0)] + [z3.Or(*[z3.And(loc == k + 1, chars[k] == NL) for k in range(n)])] if n else [], [z3.UGT(loc, 0)], []):
+                for extra in ([z3.UGT(loc, 0)] + [z3.Or(*[z3.And(loc == pos[k + 1], chars[k] == NL) for k in range(n)])] if n else [], [z3.UGT(loc, 0)], []):
                     if sol.check(*(bad + list(extra))) == z3.sat: break
                 m = sol.model()
-                txt = ''.join('\n' if m.eval(ch, model_completion=True).as_long() == NL else 'x' for ch in chars)
+                txt = ''.join({NL: '\n', 0xE9: '\u00e9'}.get(m.eval(ch, model_completion=True).as_long(), 'x') for ch in chars)
                 lv = m.eval(loc, model_completion=True).as_long()
-                want = txt[:lv].count('\n')
+                want = txt.encode()[:lv].count(b'\n')
                 got = 'panic' if kind == 'panic' else [m.eval(ix, model_completion=True).as_long() for ix in idxs][0]
                 if (fname, lv > 0, txt[lv - 1:lv] == '\n') not in [(a, b > 0, t[b - 1:b] == '\n') for a, t, b, _, _ in st['candidates']]:
                     st['candidates'].append((fname, txt, lv, want, got))
             st['solver_s'] += time.time() - t0
         if len(st['samples']) < 3:
-            st['samples'].append(dict(function=fname, text_lengths='0..%d' % L, alphabet="{'x', newline}", verdict='line index == number of newlines before the offset for every text and offset (unsat)'))
+            st['samples'].append(dict(function=fname, text_lengths='0..%d' % L, alphabet="{'x', newline, e-acute (2 bytes)}; offsets are byte offsets at character boundaries", verdict='line index == number of newlines before the offset for every text and offset (unsat)'))
 
 
 ERR_KINDS = [
@@ -146,7 +153,7 @@ def constructs(inc):
         ('include_c', ['#include "h_ok.h"']), ('include_asm', ['#include "a_ok.inc"']), ('func', ['void fn%d() {', '  X = 1;', '}']),
         # splices in lines that produce no output of their own (their continuation lines must still be counted)
         ('splice_in_block', ['/* a macro \\', '   continued \\', '   end */']), ('splice_in_linecomment', ['// note \\', 'still the comment']),
-        ('splice_define', ['#define LONG%d 1 + \\', '  2']), ('splice_in_if0', ['#if 0', 'dead \\', 'dead', '#endif']), ('splice_blank', [' \\', '']),
+        ('splice_define', ['#define LONG%d 1 + \\', '  2']), ('include_asm_utf8', ['#include "a_utf8.inc"']), ('splice_in_if0', ['#if 0', 'dead \\', 'dead', '#endif']), ('splice_blank', [' \\', '']),
     ]
 
 
@@ -262,9 +269,9 @@ def write_headers(d):
     os.makedirs(d, exist_ok=True)
     files = {'h_ok.h': 'char from_header_a;\nchar from_header_b;\n', 'a_ok.inc': '; assembler\n\tNOP\n',
              'h_bad_syntax.h': 'char hb_ok;\nchar hb_broken = ;\n', 'h_bad_cpp.h': 'char hc_ok;\n// c\n#if UNDEFINED_IN_HEADER\n#endif\n',
-             'h_bad_sem.h': 'char hs_dup;\nchar hs_dup;\n', 'h_nonl.h': 'char hn1;\nchar hn2;', 'a_nonl.inc': '; asm\n\tNOP', 'h_error.h': 'char he_ok;\n/* c */\n#error stop here\n',
+             'h_bad_sem.h': 'char hs_dup;\nchar hs_dup;\n', 'h_nonl.h': 'char hn1;\nchar hn2;', 'a_nonl.inc': '; asm\n\tNOP', 'a_utf8.inc': '; m\u00e9lodie jou\u00e9e \u00e0 l\u2019\u00e9cran \u2014 \u00e9\u00e8\u00ea\u00eb\u00e0\u00e2\u00f9\u00fb\u00e7\u00f4\u00ee\u00ef \u00e9\u00e9\u00e9\u00e9\u00e9\u00e9\u00e9\u00e9\u00e9\u00e9\nsnd\n\tRTS\n', 'h_error.h': 'char he_ok;\n/* c */\n#error stop here\n',
              'h_bad_codegen.h': 'char hg_a, hg_b;\nvoid hg_f() { hg_a = hg_a * hg_b; }\n', 'h_nested_bad.h': 'char hn_ok;\n#include "h_bad_syntax.h"\n'}
-    for n, t in files.items(): open(os.path.join(d, n), 'w').write(t)
+    for n, t in files.items(): open(os.path.join(d, n), 'w', encoding='utf-8').write(t)
 
 
 def check_end_to_end(rep, tier, st):
@@ -336,9 +343,15 @@ def replay_offsets(rep, st):
     """E-MIR candidates replayed through compile(): a semantic error whose token sits at the modelled offset of a text with the
     modelled line structure (offset 0 is reached by errors the generator raises without a position, e.g. `short *p;`)"""
     for fname, txt, lv, want, got in st['candidates']:
-        lines_before = txt[:lv].count('\n'); col = lv - (txt[:lv].rfind('\n') + 1)
+        tb = txt.encode(); head = tb[:lv].decode(errors='ignore')
+        lines_before = head.count('\n'); col = len(head) - (head.rfind('\n') + 1)
         pre = ''.join('char f%d;\n' % k for k in range(lines_before))
-        if lv == 0: src = 'short *p;\nchar a1;\nchar a2;\nvoid main() {}\n'; expect_line = 1
+        ne = head.count('\u00e9')
+        if ne:
+            # multi-byte characters before the offset: same line structure, the error token last, and (at least) the model's drift between
+            # byte and character offsets, carried by character constants (they survive preprocessing)
+            src = pre + "char zv; void main() { " + "zv = '\u00e9'; " * (8 * ne) + "zq; }\n"; expect_line = lines_before + 1
+        elif lv == 0: src = 'short *p;\nchar a1;\nchar a2;\nvoid main() {}\n'; expect_line = 1
         elif lines_before == 0: src = ' ' * col + 'char zq; char zq;\nchar a2;\nvoid main() {}\n'; expect_line = 1
         else: src = pre + ' ' * col + 'char f0;\nchar a2;\nvoid main() {}\n'; expect_line = lines_before + 1
         c = common.compile_one(src)
